@@ -473,6 +473,38 @@ def bit_sweep(tier, shard, nshards):
                     i += 1
 
 
+OFFTYPE = [b'', b'abc', b'\x00guest\x00guest', 'caf\u00e9'.encode(), b'\xff\xfe',
+           bytearray(b'abc'), bytearray(b'\xff'), memoryview(b'abc'), 'abc', '', '5',
+           '\u00e9' * 3, 5, 0, -1, 255, 256, 65536, 2 ** 32, 5.0, 0.5, float('nan'),
+           True, False, None, decimal.Decimal(5), decimal.Decimal('0.5'),
+           (1, 2), ('a',), [1], ['a'], {'k': 1}, {1: 2}, set(), {1},
+           range(3), 1j, datetime.datetime(2020, 1, 1), datetime.date(2020, 1, 1)]
+
+
+def offtype_sweep(tier, shard, nshards):
+    """every non-bit slot of every class x values of every *other* Python type (bytes for
+    text, text for numbers, floats and Decimals for integers, containers ...)"""
+    i = 0
+    for m in spec_table.METHODS:
+        for f in m.fields:
+            if f.type == 'bit':
+                continue
+            for k, v in enumerate(OFFTYPE):
+                if isinstance(v, memoryview) and tier == 'quick' and f.type == 'table':
+                    continue
+                for via in (('setattr', 'ctor') if tier != 'quick' or k % 2 == 0
+                            else ('setattr',)):
+                    if i % nshards == shard:
+                        args = {g.name: (S._CONSTRAINED.get((m.dotted, g.name),
+                                                            (None, None))[1]
+                                         if S._CONSTRAINED.get((m.dotted, g.name),
+                                                               ('x',))[0] == 'fixed'
+                                         else _plain(g)) for g in m.fields}
+                        yield {'cls': m.dotted, 'ch': 1, 'args': args,
+                               'slot': f.name, 'v': v, 'via': via}
+                    i += 1
+
+
 def _plain(f):
     return {'octet': 1, 'short': 1, 'long': 1, 'longlong': 1, 'bit': False,
             'shortstr': 'a', 'longstr': 'b', 'table': {}}[f.type]
@@ -602,6 +634,10 @@ COMPONENTS = [
     Component('bit-slots', check_slot, cases=bit_sweep,
               shards={'quick': 8, 'thorough': 8},
               describe='every bit slot of every class x non-bool values'),
+    Component('slot-offtypes', check_slot, cases=offtype_sweep,
+              shards={'quick': 8, 'thorough': 8},
+              describe='every non-bit slot of every class x values of every other Python '
+                       'type (bytes, text, floats, Decimals, containers ...)'),
     Component('slots', check_slot, strategy=slot_cases,
               budget={'quick': 24000, 'thorough': 640000},
               describe='valid method frame with one slot replaced by any value'),
